@@ -184,7 +184,17 @@ func (g *c07gen) mapping(depth int) string {
 				g.mixedCycle = true // merging an enclosing mapping re-introduces this mapping as a value
 			}
 			parts = append(parts, "<<: *"+src)
-		case r < 36:
+		case r < 35 && len(g.closedMap) > 0:
+			// a merge whose value is a sequence containing itself: a merge cycle with no mapping on it
+			merges++
+			g.nAnchor++
+			l := fmt.Sprintf("l%d", g.nAnchor)
+			g.mergeCycle = true
+			parts = append(parts, sx.Pick(g.rng, []string{
+				"<<: &" + l + " [*" + l + "]",
+				"<<: &" + l + " [[*" + l + "], *" + sx.Pick(g.rng, g.closedMap) + "]",
+				"<<: &" + l + " [*" + sx.Pick(g.rng, g.closedMap) + ", *" + l + "]"}))
+		case r < 37:
 			merges++
 			g.mergeBad = true
 			parts = append(parts, "<<: "+sx.Pick(g.rng, []string{"scalar", "[1, 2]", "~"}))
@@ -264,6 +274,7 @@ func sharedPointers(v any) bool {
 
 func c07one(text string, g *c07gen) {
 	c := sx.A(text)
+	noteCase("C07", text)
 	var n yaml.Node
 	if err := yaml.Unmarshal([]byte(text), &n); err != nil {
 		stat("C07", "yaml-parse-error")
@@ -353,6 +364,7 @@ func init() {
 			"x: &x {y: &y {back: *x}}\n", "k: &k key\nm: {*k : v}\n", "m: &m {a: 1}\nn: {? *m : v}\n",
 			"a: &a {x: 1}\nd: {da: *a, db: *a}\n", "1: a\n0x1: b\n", "a: &a {b: &b {<<: *a}}\n",
 			"a: &a {k: 1}\nb: {<<: [*a, [*a]]}\n", "<<: scalar\n", "a: &a {x: 1}\n<<: *a\nx: 2\n",
+			"a: {x: 1, <<: &l [*l]}\n", "- command: echo\n  <<: &loop [*loop]\n", "a: &a {x: 1}\nb: {<<: &l [*a, [*l]]}\n",
 		} {
 			c07one(t, nil)
 		}
